@@ -13,9 +13,11 @@ class Sym(str):
     pass
 
 
-def interp_predicate(f, sign, rel, size_zero):
-    """run closure f(x) -> bool with BigInt::sign(x) = sign, min_size(x) `rel` size, (size == 0) = size_zero"""
-    env = {}
+def interp_predicate(f, sign, rel, size_zero, init_env=None, depth=0):
+    """run closure f(x) -> bool with BigInt::sign(x) = sign, min_size(x) `rel` size, (size == 0) = size_zero.
+    Calls of local helper predicates over (value, width) are interpreted too (two levels)."""
+    env = dict(init_env or {})
+    helper = init_env is not None
     b = 0
     steps = 0
 
@@ -57,14 +59,15 @@ def interp_predicate(f, sign, rel, size_zero):
             dl = st["place"]["l"]
             if rv["k"] == "use":
                 pl = op_place(rv["op"])
-                if pl is not None and pl["p"] and pl["l"] == 1:
+                if pl is not None and pl["p"] and pl["l"] == 1 and not helper:
                     env[dl] = Sym("UP")          # reference to the captured size
                 elif pl is not None and pl["p"] and isinstance(env.get(pl["l"]), Sym) and env.get(pl["l"]) == "UP":
                     env[dl] = Sym("SZ")
                 else:
                     env[dl] = val(rv["op"])
             elif rv["k"] == "ref":
-                env[dl] = Sym("X")
+                base = env.get(rv["place"]["l"])
+                env[dl] = Sym("SZ") if (isinstance(base, Sym) and base == "SZ") else Sym("X")
             elif rv["k"] == "binop":
                 a, c = val(rv["l"]), val(rv["r"])
                 op = rv["op"]
@@ -96,7 +99,19 @@ def interp_predicate(f, sign, rel, size_zero):
             elif r.endswith("BigInt::min_size"):
                 env[dl] = Sym("MS")
             else:
-                return ("unknown-call", r)
+                g = f.prog.fn(r) if t.get("resolved_local") else None
+                if g is None or depth >= 2 or g.kind == "Closure":
+                    return ("unknown-call", r)
+                ienv = {}
+                for i_, a_ in enumerate(t["args"]):
+                    v_ = val(a_)
+                    if v_ is None:
+                        return ("unknown-call", r)
+                    ienv[i_ + 1] = v_
+                res = interp_predicate(g, sign, rel, size_zero, ienv, depth + 1)
+                if isinstance(res, tuple):
+                    return res
+                env[dl] = res
             b = t["target"]
         elif k == "switch":
             v = val(t["discr"])
